@@ -129,6 +129,9 @@ class ivmpf(object):
                 t = s.ctx.convert(t)
             except:
                 return NotImplemented
+            # complex intervals: leave the comparison to the other operand
+            if not hasattr(t, "_mpi_"):
+                return NotImplemented
         return cmpfun(s._mpi_, t._mpi_)
 
     def __eq__(s, t): return s._compare(t, libmp.mpi_eq)
